@@ -315,7 +315,8 @@ def run(ctx, spec):
             if il in ("HANG", "CRASH", "MISSING") or il.startswith("HARNESS") or il.startswith("PROTOCOL"):
                 if il == "HANG":
                     cnt["malformed_hang"] += 1
-                add(_key("malhang", lex), _size(lex), f"the regex body {_txt(lex)!r} makes the front end {il.split(' ')[0].lower()}",
+                add(C.KEY_LARGE_COUNT if (il in ("HANG", "CRASH") and C.has_large_count(lex)) else _key("malhang", lex),
+                    _size(lex), f"the regex body {_txt(lex)!r} makes the front end {il.split(' ')[0].lower()}",
                     dict(base, implementation=il[:200]))
                 continue
             if ml is None or ml.startswith("BAD"):
